@@ -995,4 +995,186 @@ Section Ins.
   Qed.
   Theorem store_inv_reachable o m cs : guarded (init o m) cs -> Inv (run (init o m) cs) /\ WF (run (init o m) cs).
   Proof. intros HG. destruct (init_inv o m) as [HI _]. exact (run_inv cs _ HI (init_WF o m) HG). Qed.
+
+  (* ---------------------------------------------------------------- insert_hugr refines the specification's insertion *)
+  Definition fold_sl (g : agraph) (L : list (port * port)) : agraph :=
+    fold_left (fun acc l => s_add_link acc (fst l) (snd l)) L g.
+  Lemma fold_sl_links L : forall g, a_links (fold_sl g L) = a_links g ++ L.
+  Proof.
+    induction L as [|l r IH]; intros g; cbn; [now rewrite app_nil_r|]. unfold fold_sl in IH. rewrite IH.
+    unfold s_add_link. cbn [a_links]. rewrite !a_upd_links, <- app_assoc. now destruct l.
+  Qed.
+  Lemma fold_sl_root L : forall g, a_root (fold_sl g L) = a_root g.
+  Proof.
+    induction L as [|l r IH]; intros g; cbn; [reflexivity|]. unfold fold_sl in IH. rewrite IH.
+    unfold s_add_link. cbn [a_root]. now rewrite !a_upd_root.
+  Qed.
+  Lemma fold_sl_nodup L : forall g, NoDup (map fst (a_nodes g)) -> NoDup (map fst (a_nodes (fold_sl g L))).
+  Proof.
+    induction L as [|l r IH]; intros g H; cbn; [assumption|]. apply IH. unfold s_add_link. cbn [a_nodes].
+    now apply a_upd_nodup, a_upd_nodup.
+  Qed.
+  Definition bumps (L : list (port * port)) (x : nid) (a : anode Op Meta) : anode Op Meta :=
+    fold_left (fun acc l => bump (fst l) (snd l) x acc) L a.
+  Lemma fold_sl_get L : forall g x, aget (a_nodes (fold_sl g L)) x = option_map (bumps L x) (aget (a_nodes g) x).
+  Proof.
+    induction L as [|l r IH]; intros g x; cbn; [now destruct (aget (a_nodes g) x)|].
+    unfold fold_sl in IH. rewrite IH, s_add_link_get. now destruct (aget (a_nodes g) x).
+  Qed.
+  Lemma bump_comm s t s' t' x (a : anode Op Meta) : bump s t x (bump s' t' x a) = bump s' t' x (bump s t x a).
+  Proof.
+    unfold bump, a_with_nin, a_with_nout. destruct a as [o pa ch me ni no]. cbn.
+    destruct (Nat.eqb x (fst s)), (Nat.eqb x (fst t)), (Nat.eqb x (fst s')), (Nat.eqb x (fst t')); cbn; f_equal; lia.
+  Qed.
+  Lemma fold_left_perm {X Y} (f : X -> Y -> X) (l1 l2 : list Y) :
+    (forall a x y, f (f a x) y = f (f a y) x) -> Permutation l1 l2 -> forall a, fold_left f l1 a = fold_left f l2 a.
+  Proof.
+    intros Hc. induction 1 as [|x l l' _ IH|x y l|l l' l'' _ IH1 _ IH2]; intros a; cbn; auto.
+    - now rewrite Hc.
+    - now rewrite IH1.
+  Qed.
+  Lemma Rep_fold_perm (h : hugr) g L1 L2 : Permutation L1 L2 -> Rep h (fold_sl g L1) -> Rep h (fold_sl g L2).
+  Proof.
+    intros HP (HN & HND & HL & HR). split; [|split; [|split]].
+    - intros x. rewrite HN, !fold_sl_get. destruct (aget (a_nodes g) x) as [a|]; [|reflexivity]. cbn. f_equal.
+      unfold bumps. apply fold_left_perm; [|exact HP]. intros a0 l1 l2. apply bump_comm.
+    - rewrite fold_sl_get in HN || idtac. clear HN.
+      assert (Hg : NoDup (map fst (a_nodes g))).
+      { clear - HND. revert g HND. induction L1 as [|l r IH]; intros g H; cbn in H; [assumption|].
+        apply IH in H. unfold s_add_link in H. cbn [a_nodes] in H.
+        (* keys are unchanged by a_upd *)
+        assert (Hk : forall (g0 : agraph) n f, map fst (a_nodes (a_upd g0 n f)) = map fst (a_nodes g0)).
+        { intros g0 n f. unfold a_upd. destruct (aget (a_nodes g0) n) as [a|] eqn:E; [|reflexivity]. cbn [a_nodes].
+          clear - E. induction (a_nodes g0) as [|[k v] r' IH']; cbn in *; [discriminate|].
+          destruct (Nat.eqb_spec n k) as [->|]; [reflexivity|]. cbn. f_equal. now apply IH'. }
+        now rewrite !Hk in H. }
+      now apply fold_sl_nodup.
+    - rewrite HL, !fold_sl_links. now apply Permutation_app_head.
+    - now rewrite HR, !fold_sl_root.
+  Qed.
+
+  Lemma copy_links_rep (m : mapping) :
+    forall (ls : list (port * port)) Ak gk, Inv Ak -> Rep Ak gk ->
+    (forall (s t : port), In (s, t) ls -> (exists s', mget m (fst s) = Some s' /\ get_node Ak s' <> None) /\
+                                 (exists t', mget m (fst t) = Some t' /\ get_node Ak t' <> None) /\
+                                 (-1 <= snd s)%Z /\ (-1 <= snd t)%Z) ->
+    exists A3, copy_links Ak m ls = (A3, Ok) /\ Inv A3 /\ Rep A3 (fold_sl gk (map (mapl m) ls)) /\
+               (forall x, get_node A3 x <> None <-> get_node Ak x <> None).
+  Proof.
+    induction ls as [|[s t] rest IH]; intros Ak gk HI HR Hls; cbn [copy_links map].
+    - exists Ak. split; [reflexivity|]. split; [assumption|]. split; [assumption|]. tauto.
+    - destruct (Hls s t ltac:(now left)) as ((s' & Ems & Hs') & (t' & Emt & Ht') & Hso & Hto).
+      rewrite Ems, Emt.
+      destruct (add_link_refines Ak gk (s', snd s) (t', snd t) HI HR) as (h' & Hadd & HI' & HR').
+      { unfold port_ok. cbn [fst snd]. apply andb_true_iff. split; [now apply (rep_live Ak gk _ HR)|now apply Z.leb_le]. }
+      { unfold port_ok. cbn [fst snd]. apply andb_true_iff. split; [now apply (rep_live Ak gk _ HR)|now apply Z.leb_le]. }
+      rewrite Hadd.
+      assert (Hlive' : forall x, get_node h' x <> None <-> get_node Ak x <> None).
+      { intros x. rewrite <- (rep_live h' _ x HR'), <- (rep_live Ak gk x HR). unfold a_live.
+        rewrite s_add_link_get. destruct (aget (a_nodes gk) x); cbn; tauto. }
+      destruct (IH h' (s_add_link gk (s', snd s) (t', snd t)) HI' HR') as (A3 & Hcl & HI3 & HR3 & Hlive3).
+      + intros s0 t0 Hin. destruct (Hls s0 t0 ltac:(now right)) as ((s0' & E1 & L1) & (t0' & E2 & L2) & B1 & B2).
+        split; [exists s0'; split; [assumption|now apply Hlive']|]. split; [exists t0'; split; [assumption|now apply Hlive']|]. tauto.
+      + exists A3. split; [exact Hcl|]. split; [exact HI3|]. split.
+        * assert (E : mapl m (s, t) = ((s', snd s), (t', snd t))).
+          { unfold mapl, mapp. cbn [fst snd]. now rewrite (mapn_get _ _ _ Ems), (mapn_get _ _ _ Emt). }
+          unfold fold_sl. cbn [fold_left]. rewrite E. exact HR3.
+        * intros x. rewrite Hlive3. apply Hlive'.
+  Qed.
+
+  Lemma aget_app (l1 l2 : list (nid * anode Op Meta)) x :
+    aget (l1 ++ l2) x = match aget l1 x with Some a => Some a | None => aget l2 x end.
+  Proof. induction l1 as [|[k v] r IH]; cbn; [reflexivity|]. destruct (Nat.eqb x k); [reflexivity|exact IH]. Qed.
+  Lemma aget_map_some (f : nid -> nid) (G : nid * anode Op Meta -> anode Op Meta) (l : list (nid * anode Op Meta)) k a :
+    (forall k1 k2, In k1 (map fst l) -> In k2 (map fst l) -> f k1 = f k2 -> k1 = k2) ->
+    aget l k = Some a -> aget (map (fun na => (f (fst na), G na)) l) (f k) = Some (G (k, a)).
+  Proof.
+    induction l as [|[k0 a0] r IH]; cbn; [discriminate|]. intros Hinj.
+    destruct (Nat.eqb_spec k k0) as [->|Hne].
+    - intros [= <-]. now rewrite Nat.eqb_refl.
+    - intros Ha. assert (Hin : In k (map fst r)) by (eapply (dget_In Nat.eqb Nat.eqb_spec); eassumption).
+      destruct (Nat.eqb_spec (f k) (f k0)) as [E|_].
+      + exfalso. apply Hne. apply Hinj; [now right|now left|exact E].
+      + apply IH; [|exact Ha]. intros k1 k2 H1 H2. apply Hinj; now right.
+  Qed.
+  Lemma aget_map_none (f : nid -> nid) (G : nid * anode Op Meta -> anode Op Meta) (l : list (nid * anode Op Meta)) x :
+    (forall k, In k (map fst l) -> f k <> x) -> aget (map (fun na => (f (fst na), G na)) l) x = None.
+  Proof.
+    induction l as [|[k0 a0] r IH]; cbn; [reflexivity|]. intros H.
+    destruct (Nat.eqb_spec x (f k0)) as [->|]; [exfalso; apply (H k0); auto|]. apply IH. intros k Hk. apply H. now right.
+  Qed.
+  Lemma NoDup_app_intro {X} (l1 l2 : list X) : NoDup l1 -> NoDup l2 -> (forall x, In x l1 -> ~ In x l2) -> NoDup (l1 ++ l2).
+  Proof.
+    induction l1 as [|a r IH]; cbn; intros H1 H2 Hd; [assumption|]. inversion H1; subst. constructor.
+    - rewrite in_app_iff. intros [H|H]; [contradiction|]. apply (Hd a); auto.
+    - apply IH; auto.
+  Qed.
+  Lemma fold_left_map' {X Y Z} (f : X -> Z -> X) (g : Y -> Z) (l : list Y) : forall a,
+    fold_left f (map g l) a = fold_left (fun a y => f a (g y)) l a.
+  Proof. induction l as [|y r IH]; intros a; cbn; [reflexivity|apply IH]. Qed.
+
+  Definition copy_anode (m : mapping) (p : nid) (na : nid * anode Op Meta) : anode Op Meta :=
+    {| a_op := a_op (snd na);
+       a_parent := match a_parent (snd na) with Some q => Some (mapn m q) | None => Some p end;
+       a_children := map (mapn m) (a_children (snd na)); a_meta := a_meta (snd na);
+       a_nin := 0; a_nout := a_nout (snd na) |}.
+  Definition g2_of (gA gB : agraph) (m : mapping) (p : nid) : agraph :=
+    let g1 := a_upd gA p (fun a => a_with_children a (a_children a ++ [mapn m (a_root gB)])) in
+    {| a_nodes := a_nodes g1 ++ map (fun na => (mapn m (fst na), copy_anode m p na)) (a_nodes gB);
+       a_links := a_links g1; a_root := a_root g1 |}.
+  Lemma s_insert_eq gA gB m p : s_insert gA gB m p = fold_sl (g2_of gA gB m p) (map (mapl m) (a_links gB)).
+  Proof.
+    unfold s_insert, fold_sl, g2_of. rewrite fold_left_map'. f_equal. f_equal. f_equal. apply map_ext. now intros [n a].
+  Qed.
+
+  Lemma shape_rep (A B : hugr) gA gB p m A2 : Inv A -> Inv B -> Rep A gA -> Rep B gB -> get_node A p <> None ->
+    Shape A B p m A2 -> Rep A2 (g2_of gA gB m p).
+  Proof.
+    intros HIA HIB (HNA & HNDA & HLA & HRA) (HNB & HNDB & HLB & HRB) HpA HS.
+    pose proof (sh_keys _ _ _ _ _ HS) as Hk.
+    assert (HkeysB : forall k, In k (map fst (a_nodes gB)) <-> get_node B k <> None).
+    { intros k. split.
+      - intros H. apply aget_in in H. rewrite <- HNB in H. destruct (get_node B k); [discriminate|exfalso; now apply H].
+      - intros H. specialize (HNB k). destruct (get_node B k) as [b|]; [|congruence]. cbn in HNB. symmetry in HNB.
+        eapply (dget_In Nat.eqb Nat.eqb_spec); eassumption. }
+    assert (Hinj : forall k1 k2, In k1 (map fst (a_nodes gB)) -> In k2 (map fst (a_nodes gB)) -> mapn m k1 = mapn m k2 -> k1 = k2).
+    { intros k1 k2 H1 H2 E. apply HkeysB in H1, H2. apply (sh_dom _ _ _ _ _ HS) in H1, H2.
+      destruct (mget m k1) as [v1|] eqn:E1; [|congruence]. destruct (mget m k2) as [v2|] eqn:E2; [|congruence].
+      rewrite (mapn_get _ _ _ E1), (mapn_get _ _ _ E2) in E. subst v2. eapply (sh_inj _ _ _ _ _ HS); eassumption. }
+    assert (Hg1 : forall x, aget (a_nodes (a_upd gA p (fun a => a_with_children a (a_children a ++ [mapn m (a_root gB)])))) x =
+                            option_map (fun d => anode_of (if Nat.eqb x p then add_child (mapn m (root B)) d else d)) (get_node A x)).
+    { intros x. rewrite a_upd_get, <- !HNA, HRB. destruct (Nat.eqb_spec x p) as [->|].
+      - destruct (get_node A p); reflexivity.
+      - destruct (get_node A x); reflexivity. }
+    split; [|split; [|split]]; unfold g2_of; cbn [a_nodes a_links a_root].
+    - intros x. rewrite aget_app, Hg1.
+      destruct (get_node A x) as [d|] eqn:Ed; cbn [option_map].
+      + now rewrite (sh_old _ _ _ _ _ HS x d Ed).
+      + destruct (rev_lookup m x) as [c|] eqn:R.
+        * apply rev_lookup_some in R. apply (dget_In_iff Nat.eqb Nat.eqb_spec) in R; [|exact Hk].
+          assert (Hb : exists b, get_node B c = Some b).
+          { destruct (get_node B c) as [b|] eqn:E; [eauto|]. exfalso. apply (proj1 (sh_dom _ _ _ _ _ HS c)); congruence. }
+          destruct Hb as (b & Eb). destruct (sh_copy _ _ _ _ _ HS c x b R Eb) as (d' & Ed' & F1 & F2 & F3 & F4 & F5 & F6).
+          rewrite Ed'. cbn [option_map]. rewrite <- (mapn_get _ _ _ R).
+          assert (Hab : aget (a_nodes gB) c = Some (anode_of b)) by (rewrite <- HNB, Eb; reflexivity).
+          rewrite (aget_map_some (mapn m) (copy_anode m p) (a_nodes gB) c (anode_of b) Hinj Hab). f_equal.
+          unfold copy_anode. cbn [snd anode_of a_op a_parent a_children a_meta a_nout].
+          destruct d' as [o1 p1 i1 u1 c1 m1]. cbn in *. subst. destruct (nd_parent b); reflexivity.
+        * assert (Hno : forall c, mget m c <> Some x).
+          { intros c E. apply (rev_lookup_none m x c R). now apply (dget_In_pair Nat.eqb Nat.eqb_spec). }
+          rewrite aget_map_none.
+          -- destruct (get_node A2 x) eqn:E2; [|reflexivity]. exfalso.
+             destruct (sh_only _ _ _ _ _ HS x ltac:(congruence)) as [H|(c & Ec)]; [congruence|]. now apply (Hno c).
+          -- intros k Hkk E. apply HkeysB in Hkk. apply (sh_dom _ _ _ _ _ HS) in Hkk.
+             destruct (mget m k) as [v|] eqn:Ev; [|congruence]. rewrite (mapn_get _ _ _ Ev) in E. subst v. now apply (Hno k).
+    - rewrite map_app, map_map. cbn [fst]. apply NoDup_app_intro.
+      + now apply a_upd_nodup.
+      + rewrite <- (map_map fst (mapn m)). apply NoDup_map_inj_in; assumption.
+      + intros x Hx Hin. apply aget_in in Hx. rewrite Hg1 in Hx.
+        rewrite <- (map_map fst (mapn m)) in Hin. apply in_map_iff in Hin. destruct Hin as (k & <- & Hkk).
+        apply HkeysB in Hkk. apply (sh_dom _ _ _ _ _ HS) in Hkk. destruct (mget m k) as [v|] eqn:Ev; [|congruence].
+        rewrite (mapn_get _ _ _ Ev), (sh_fresh _ _ _ _ _ HS k v Ev) in Hx. now apply Hx.
+    - rewrite a_upd_links, (sh_links _ _ _ _ _ HS). exact HLA.
+    - rewrite a_upd_root, (sh_root _ _ _ _ _ HS). exact HRA.
+  Qed.
 End Ins.
